@@ -1,6 +1,7 @@
 package props
 
 import (
+	"reflect"
 	"testing"
 
 	"github.com/hashicorp/go-argmapper"
@@ -70,6 +71,9 @@ func scenarioShape(v *engine.Verdict, sc *engine.Scenario) (nontrivial bool) {
 // evalC06: the operation returns normally -- no panic, no runaway. (Fatal
 // crashes and hangs are caught by the driver through the journal/watchdog.)
 func evalC06(c *engine.Case) engine.Verdict {
+	if c.Note == "exotic" {
+		return evalC06X(c)
+	}
 	var v engine.Verdict
 	sc := c.Sc
 	engine.ScenarioClasses(&v, sc)
@@ -138,7 +142,150 @@ func evalC06(c *engine.Case) engine.Verdict {
 	return v
 }
 
+// ---------------------------------------------------------------------------
+// C06 over signatures outside the token universe: reflect kinds and type
+// shapes a generated struct universe does not contain, among them recursive
+// types (legal Go: `type P *P`, `type S []S`). Whatever the types are, the
+// entry points return -- with a value or an error.
+
+type recP *recP
+type recA *recB
+type recB *recA
+type recS []recS
+type recM map[string]recM
+type recF func() recF
+type recC chan recC
+type recStruct struct{ Next *recStruct }
+
+func c06xTypes() []reflect.Type {
+	return append(append([]reflect.Type(nil), exTypes...),
+		reflect.TypeOf(recP(nil)), reflect.TypeOf(recA(nil)), reflect.TypeOf(recS(nil)), reflect.TypeOf(recM(nil)),
+		reflect.TypeOf(recF(nil)), reflect.TypeOf(recC(nil)), reflect.TypeOf(recStruct{}), reflect.TypeOf(&recStruct{}),
+		reflect.TypeOf([2]int{}), reflect.TypeOf(struct{}{}), reflect.TypeOf((**int)(nil)), reflect.TypeOf(map[string]interface{}(nil)))
+}
+
+func c06xValues() []interface{} {
+	var p recP
+	p = recP(&p)
+	rs := &recStruct{}
+	rs.Next = rs
+	two := 2
+	ptwo := &two
+	// values that contain themselves: printing them never ends
+	selfM := recM{}
+	selfM["self"] = selfM
+	selfS := recS{nil}
+	selfS[0] = selfS
+	scope := map[string]interface{}{"n": 1}
+	scope["scope"] = scope
+	return append(exValues(), p, recA(nil), recS{nil, recS{}}, recM{"a": nil}, recF(nil), make(recC), *rs, rs, [2]int{1, 2}, struct{}{}, &ptwo,
+		selfM, selfS, scope)
+}
+
+// C06XCase: an identity function over 1-3 catalogue types, supplied values and
+// converters by index, and the entry point.
+type C06XCase struct {
+	Types  []int  `json:"types"`
+	Inputs []int  `json:"inputs"`
+	Convs  []int  `json:"convs"`
+	Op     string `json:"op"` // call | convert | redefine
+}
+
+func evalC06X(c *engine.Case) engine.Verdict {
+	var v engine.Verdict
+	var x C06XCase
+	if err := c.GetX(&x); err != nil {
+		v.Failf("bad case: %v", err)
+		return v
+	}
+	types, vals := c06xTypes(), c06xValues()
+	var ts []reflect.Type
+	for _, i := range x.Types {
+		ts = append(ts, types[i%len(types)])
+	}
+	v.Class("entry-exotic-" + x.Op)
+	for _, t := range ts {
+		if t.Kind() == reflect.Ptr && (t.Elem() == t || (t.Elem().Kind() == reflect.Ptr && t.Elem().Elem() == t)) {
+			v.Class("self-referential-pointer-type")
+		}
+	}
+	var args []argmapper.Arg
+	for _, i := range x.Inputs {
+		args = append(args, argmapper.Typed(vals[i%len(vals)]))
+		if i%len(vals) >= len(vals)-3 {
+			v.Class("self-containing-value")
+		}
+	}
+	for _, i := range x.Convs {
+		args = append(args, argmapper.Converter(exConvs[i%len(exConvs)]))
+	}
+	args = append(args, engine.Quiet())
+	fn := reflect.MakeFunc(reflect.FuncOf(ts, ts, false), func(a []reflect.Value) []reflect.Value { return a }).Interface()
+	var o engine.Outcome
+	engine.Protect(&o, func() {
+		switch x.Op {
+		case "convert":
+			if _, err := argmapper.Convert(ts[0], args...); err != nil {
+				_ = err.Error()
+			}
+		default:
+			f, err := argmapper.NewFunc(fn)
+			if err != nil {
+				v.Class("signature-rejected")
+				return
+			}
+			if x.Op == "redefine" {
+				rf, err := f.Redefine(args...)
+				if err == nil && rf != nil {
+					r := rf.Call(engine.Quiet())
+					if e := r.Err(); e != nil {
+						_ = e.Error()
+					}
+				} else if err != nil {
+					_ = err.Error()
+				}
+				return
+			}
+			r := f.Call(args...)
+			if e := r.Err(); e != nil {
+				_ = e.Error() // rendering the report must not choke on the values either
+			}
+		}
+	})
+	if o.Panic != "" {
+		v.Failf("%s over signature %v panicked: %s", x.Op, ts, o.Panic)
+	}
+	v.NonTrivial = true
+	return v
+}
+
+func genC06X(g engine.G) *engine.Case {
+	nt := len(c06xTypes())
+	nv := len(c06xValues())
+	x := C06XCase{Op: engine.Pick(g, []string{"call", "call", "convert", "redefine"})}
+	seen := map[int]bool{}
+	for i, n := 0, g.Int(1, 3); i < n; i++ {
+		t := g.Int(0, nt-1)
+		if x.Op == "convert" || !seen[t] || g.Pct(30) { // positional parameters may repeat a type
+			x.Types = append(x.Types, t)
+			seen[t] = true
+		}
+	}
+	for i, n := 0, g.Int(0, 3); i < n; i++ {
+		x.Inputs = append(x.Inputs, g.Int(0, nv-1))
+	}
+	for i, n := 0, g.Int(0, 2); i < n; i++ {
+		x.Convs = append(x.Convs, g.Int(0, len(exConvs)-1))
+	}
+	c := &engine.Case{Note: "exotic", Reps: 1}
+	c.SetX(&x)
+	return c
+}
+
 func genC06(g engine.G) *engine.Case {
+	if g.Pct(6) {
+		return genC06X(g)
+	}
 	var sc *engine.Scenario
 	o := engine.DefaultFuncOpts()
 	o.AllowOnce, o.AllowPosRepeat, o.FailP = true, true, 10
